@@ -28,6 +28,12 @@ func c03Engine(rc *RunCtx, sr, bm bool) (*Engine, error) {
 				gs.UsedNoncesList = append(gs.UsedNoncesList, ct.Nonce{SourceDomain: d, Nonce: c03UsedBase + uint64(i)})
 			}
 		}
+		// nonces that the sweep will present as fresh for source domains 0..2 are already used for other source domains
+		// (the local one, a neighbour, the largest): a pair is (source domain, nonce), nothing else
+		base := 100000 + uint64(rc.Shard)*1000000
+		for k := uint64(0); k < 400; k++ {
+			gs.UsedNoncesList = append(gs.UsedNoncesList, ct.Nonce{SourceDomain: []uint32{4, 3, 0xffffffff, 5}[k%4], Nonce: base + 3*k + k%3})
+		}
 	})
 }
 
